@@ -4,6 +4,7 @@
   `<model answer>` or `<model answer>\t<spec answer>`.
 -/
 import UnicLocale.Model.Ops
+import UnicLocale.Model.Cmp
 import UnicLocale.Spec.Grammar
 import UnicLocale.Spec.Locale
 import UnicLocale.Spec.Likely
@@ -195,32 +196,6 @@ def dirName : LangId.Dir → String
 
 def ordName (lt eq : Bool) : String := if eq then "eq" else if lt then "lt" else "gt"
 
-/-! derived `Ord`: field by field, `None < Some`, byte strings lexicographic, lists lexicographic -/
-
-def cmpB (a b : Bytes) : Ordering := if a == b then .eq else if bLt a b then .lt else .gt
-def cmpOpt {α} (c : α → α → Ordering) : Option α → Option α → Ordering
-  | none, none => .eq
-  | none, some _ => .lt
-  | some _, none => .gt
-  | some a, some b => c a b
-def cmpList {α} (c : α → α → Ordering) : List α → List α → Ordering
-  | [], [] => .eq
-  | [], _ :: _ => .lt
-  | _ :: _, [] => .gt
-  | a :: s, b :: t => (c a b).then (cmpList c s t)
-def cmpLi (a b : LangId) : Ordering :=
-  (cmpOpt cmpB a.language b.language).then <|
-  (cmpOpt cmpB a.script b.script).then <|
-  (cmpOpt cmpB a.region b.region).then <|
-  cmpOpt (cmpList cmpB) a.variants b.variants
-def cmpKV (a b : Bytes × List Bytes) : Ordering := (cmpB a.1 b.1).then (cmpList cmpB a.2 b.2)
-def cmpLoc (a b : Locale) : Ordering :=
-  (cmpLi a.id b.id).then <|
-  (cmpList cmpKV a.ext.unicode.keywords b.ext.unicode.keywords).then <|
-  (cmpList cmpB a.ext.unicode.attributes b.ext.unicode.attributes).then <|
-  (cmpOpt cmpLi a.ext.transform.tlang b.ext.transform.tlang).then <|
-  (cmpList cmpKV a.ext.transform.tfields b.ext.transform.tfields).then <|
-  cmpList cmpB a.ext.priv b.ext.priv
 def ordStr : Ordering → String
   | .lt => "lt"
   | .eq => "eq"
